@@ -1,10 +1,12 @@
-\* thorough: all 21 named lattices, first 5 rings, every ordered ring pair, both tie rules,
-\* block ends as written (bug) and repaired; Scales_t = the scale exponents of the instance family
+\* thorough: all 25 named lattices, ring table of 12 rings, every ordered ring pair of the first 5 rings + the near-cut
+\* ring pairs among the 12 rings, both tie rules, block ends as written (bug) and repaired; Scales_t = the scale
+\* exponents of the instance family
 SPECIFICATION Spec
 CONSTANTS
   MODE = "rule"
   Cells <- Cells_t
   NR = 5
+  NRC = 12
   PairSel = "all"
   TieRules = {"fwd", "rev"}
   BugEnds = {TRUE, FALSE}
